@@ -296,6 +296,30 @@ func classifyC06(r *rig, res *scnResult, fs []nodeFinal, best *nodeFinal, t *tre
 		// F4b (repaired in /repo f49151a; kept for the same reason): the peer that holds the best chain announced a block by inv after its last request
 		// getheaders(locator(tip), 0) had been answered; the follow-up request is identical and is dropped by
 		// PushGetHeadersMsg's duplicate filter, so nothing was requested after the inv.
+		// an inv that carries several blocks (already stored ones first, the new ones last) must be followed up for its
+		// LAST block entry (searchForFinalBlock); nothing requested after such an inv although its last block is unknown
+		for _, f := range fs {
+			if !f.Honest || !f.Reachable {
+				continue
+			}
+			for k, e := range f.Hist {
+				if !(e.Sent && e.Kind == "inv" && e.Multi && len(e.Idx) > 1) {
+					continue
+				}
+				_, haveLast := t.by[r.tree.disp[e.Idx[len(e.Idx)-1]]]
+				_, haveFirst := t.by[r.tree.disp[e.Idx[0]]]
+				asked := false
+				for _, e2 := range f.Hist[k+1:] {
+					if !e2.Sent && e2.Kind == "getheaders" {
+						asked = true
+					}
+				}
+				if !haveLast && haveFirst && !asked {
+					return "c06-multi-block-inv-not-followed-up",
+						fmt.Sprintf("node %d announced blocks %s in ONE inv (the first already stored, the last new); nothing was requested from it afterwards: the announcement of the last block entry was not followed up", f.ID, compactInts(e.Idx))
+				}
+			}
+		}
 		for _, f := range fs {
 			if !f.Honest || !f.Reachable {
 				continue
@@ -617,7 +641,11 @@ func genLinear(rng *rand.Rand, o genOpts, engine string) *scn {
 		announcers := 0
 		for i, n := range s.Nodes {
 			if n.Pos == L && i != lossy && (i == full || rng.Intn(2) == 0) {
-				s.Steps = append(s.Steps, scnStep{Kind: "announce", Node: i, How: how, N: k})
+				h := how
+				if h == "inv" && rng.Intn(2) == 0 {
+					h = "invx" // several blocks (announced ones + new ones) and tx entries in ONE inv
+				}
+				s.Steps = append(s.Steps, scnStep{Kind: "announce", Node: i, How: h, N: k})
 				announcers++
 			}
 		}
@@ -710,7 +738,11 @@ func genFork(rng *rand.Rand, o genOpts, engine string) *scn {
 	}
 	for i, n := range s.Nodes {
 		if n.Pos == L && len(n.Path) == L+future {
-			s.Steps = append(s.Steps, scnStep{Kind: "announce", Node: i, How: how, N: future})
+			h := how
+			if h == "inv" && rng.Intn(2) == 0 {
+				h = "invx"
+			}
+			s.Steps = append(s.Steps, scnStep{Kind: "announce", Node: i, How: h, N: future})
 		}
 	}
 	s.Steps = append(s.Steps, scnStep{Kind: "run"})
